@@ -351,6 +351,57 @@ func run(c string) string {
 			cs[i] = encRat(ratOf(x))
 		}
 		return fmt.Sprintf("ok %d %s %s", o.best, encRat(ratOf(o.cost)), strings.Join(cs, ","))
+	case "full":
+		if len(f) != 5 {
+			return "badcase"
+		}
+		o := observe(parseSpec(f[1:5]), false)
+		lastObs[c] = o
+		if o.class != "ok" {
+			return errLine(o)
+		}
+		if !o.logOK {
+			return "err badlog"
+		}
+		return fmt.Sprintf("ok %s %d %s %s", o.nhex, o.best, encRat(ratOf(o.cost)), lib.Bytes(o.proc.stdout))
+	case "evalcmd":
+		if len(f) != 2 {
+			return "badcase"
+		}
+		r := runBin(lib.ParseBytes(f[1]), "eval")
+		if crashed(r.stderr) || r.exit < 0 {
+			return "panic crash"
+		}
+		if r.exit != 0 {
+			return "err reject"
+		}
+		var ls []string
+		tot := ""
+		for _, l := range strings.Split(strings.TrimRight(string(r.stdout), "\n"), "\n") {
+			if m := reEvalLine.FindStringSubmatch(l); m != nil {
+				ls = append(ls, fmt.Sprintf("%s:%s+%s:%s", m[1], m[2], m[3], m[4]))
+			} else if m := reEvalTotal.FindStringSubmatch(l); m != nil {
+				tot = m[2] + ":" + m[3]
+			} else {
+				return "err badoutput"
+			}
+		}
+		if len(ls) == 0 {
+			return "ok - " + tot
+		}
+		return "ok " + strings.Join(ls, ",") + " " + tot
+	case "fmtcmd":
+		if len(f) != 2 {
+			return "badcase"
+		}
+		r := runBin(lib.ParseBytes(f[1]), "fmt")
+		if crashed(r.stderr) || r.exit < 0 {
+			return "panic crash"
+		}
+		if r.exit != 0 {
+			return "err reject"
+		}
+		return "ok " + lib.Bytes(r.stdout)
 	case "report":
 		if len(f) != 6 {
 			return "badcase"
@@ -756,10 +807,32 @@ func oracle(c, res string) string {
 	switch f[0] {
 	case "search":
 		return oracleSearch(c, res)
-	case "select", "report":
+	case "select", "report", "full":
 		// derived views of the search case just before; the property is judged there
 		if strings.HasPrefix(res, "err unstable") || strings.HasPrefix(res, "panic") {
 			return "observation changed between two runs: " + res
+		}
+	case "evalcmd":
+		if strings.HasPrefix(res, "panic") || res == "err badoutput" {
+			return "eval: " + res
+		}
+		if strings.HasPrefix(res, "ok ") {
+			// what eval prints is an addition chain, by this harness's own arithmetic
+			if _, _, _, msg := evalScript(lib.ParseBytes(f[1])); msg != "" {
+				return msg
+			}
+		}
+	case "fmtcmd":
+		if strings.HasPrefix(res, "panic") {
+			return "fmt crashed"
+		}
+		if strings.HasPrefix(res, "ok ") {
+			// formatting does not change the chain
+			c1, _, _, m1 := evalScript(lib.ParseBytes(f[1]))
+			c2, _, _, m2 := evalScript(lib.ParseBytes(strings.TrimPrefix(res, "ok ")))
+			if (m1 == "") != (m2 == "") || (m1 == "" && !sameChain(c1, c2)) {
+				return "fmt output evaluates differently from its input: " + m1 + " / " + m2
+			}
 		}
 	}
 	return ""
@@ -775,6 +848,12 @@ func nontrivial(c, res string) bool {
 		return f[len(f)-1] != "-" // at least one operation (n >= 2)
 	case "select":
 		return f[5] != "-"
+	case "full":
+		return !strings.HasSuffix(res, " "+lib.Bytes([]byte("return  1\n")))
+	case "evalcmd":
+		return !strings.HasPrefix(res, "ok - ")
+	case "fmtcmd":
+		return len(res) > 40
 	}
 	return false
 }
@@ -861,7 +940,13 @@ func shapes(tier string, r *lib.Rand) []string {
 	return out
 }
 
+// number of `full` cases (the model runs all 200 algorithms for each)
+var fullBudget = 120
+
 func gen(tier string, r *lib.Rand, emit func(string)) {
+	if tier != "quick" {
+		fullBudget = 1500
+	}
 	var specs []spec
 	quick := tier == "quick"
 	ws := weightSet
@@ -944,7 +1029,21 @@ func gen(tier string, r *lib.Rand, emit func(string)) {
 		if o.class == "ok" && o.logOK {
 			emit(fmt.Sprintf("select %s %s", s.head(), encTable(o.table)))
 			emit(fmt.Sprintf("report %s %s", s.head(), encOps(o.ops)))
+			emit("evalcmd " + lib.Bytes(o.proc.stdout))
+			emit("fmtcmd " + lib.Bytes(o.proc.stdout))
 		}
+		// the ensemble itself in the model: only where Go's sort.Slice is stable (see dispatch/C14.v)
+		if n, bad := evalExpr(s.expr); o.class != "ok" || (bad == 0 && n.BitLen() <= 20 && fullBudget > 0) {
+			if o.class == "ok" {
+				fullBudget--
+			}
+			emit("full " + s.head())
+		}
+	}
+	for _, src := range []string{"", "return 1 +", "a = 1 + 1", "return 1\nreturn 1", "a = 1 + 1\nreturn a + b", "a = 1 << 3\nreturn a + [2]\n",
+		"x = 2*1\nreturn x << 0", "return (1 + 1) + (1 + 1)", "a = 1 + 1\na = a + 1\nreturn a"} {
+		emit("evalcmd " + lib.Bytes([]byte(src)))
+		emit("fmtcmd " + lib.Bytes([]byte(src)))
 	}
 }
 
